@@ -6,6 +6,7 @@ CONSTANTS
   Global = FALSE
   D = 1
   DropWhenBusy = TRUE
+  LeakOnSibling = FALSE
   Export = FALSE
 INVARIANTS TypeOK BoundedRefresh
 PROPERTIES Live
